@@ -235,8 +235,18 @@ func InitBody(method string, s *hx.Script, extra hx.Meta) []byte {
 	return hx.RequestBytes(method, s, extra)
 }
 
+// ContBodyDup is ContBody with the token keys repeated once more at the end of
+// the request metadata (Arrow metadata may repeat a key).
+func ContBodyDup(cursor, call string, cancel bool, input []int64, as32 bool, user hx.Meta) []byte {
+	return contBody(cursor, call, cancel, input, as32, user, true)
+}
+
 // ContBody frames a continuation. input nil = tick (empty schema).
 func ContBody(cursor, call string, cancel bool, input []int64, as32 bool, user hx.Meta) []byte {
+	return contBody(cursor, call, cancel, input, as32, user, false)
+}
+
+func contBody(cursor, call string, cancel bool, input []int64, as32 bool, user hx.Meta, dup bool) []byte {
 	m := hx.Meta{}
 	m.Keys = append(m.Keys, user.Keys...)
 	m.Vals = append(m.Vals, user.Vals...)
@@ -248,6 +258,14 @@ func ContBody(cursor, call string, cancel bool, input []int64, as32 bool, user h
 	}
 	if cancel {
 		m = m.Add(hx.KCancel, "1")
+	}
+	if dup {
+		if cursor != "" {
+			m = m.Add(hx.KState, cursor)
+		}
+		if call != "" {
+			m = m.Add(hx.KCallState, call)
+		}
 	}
 	if input == nil {
 		return hx.RawRequestBytes(hx.EmptyBatch(), m)
